@@ -359,6 +359,29 @@ pub fn entries() -> Vec<Entry> {
 		&["E0277"],
 	));
 
+	// key-holding guards must stay !Send even over a raw lock whose own guards may be sent (GuardMarker = GuardSend):
+	// there only the ThreadKey inside the guard prevents it. The twin shows that the key-less *Ref of the same lock is Send.
+	let send_raw = "struct SendRaw(parking_lot::RawMutex);\nunsafe impl lock_api::RawMutex for SendRaw {\n\tconst INIT: Self = SendRaw(<parking_lot::RawMutex as lock_api::RawMutex>::INIT);\n\ttype GuardMarker = lock_api::GuardSend;\n\tfn lock(&self) { lock_api::RawMutex::lock(&self.0) }\n\tfn try_lock(&self) -> bool { lock_api::RawMutex::try_lock(&self.0) }\n\tunsafe fn unlock(&self) { lock_api::RawMutex::unlock(&self.0) }\n}\nstruct SendRawRw(parking_lot::RawRwLock);\nunsafe impl lock_api::RawRwLock for SendRawRw {\n\tconst INIT: Self = SendRawRw(<parking_lot::RawRwLock as lock_api::RawRwLock>::INIT);\n\ttype GuardMarker = lock_api::GuardSend;\n\tfn lock_shared(&self) { lock_api::RawRwLock::lock_shared(&self.0) }\n\tfn try_lock_shared(&self) -> bool { lock_api::RawRwLock::try_lock_shared(&self.0) }\n\tunsafe fn unlock_shared(&self) { lock_api::RawRwLock::unlock_shared(&self.0) }\n\tfn lock_exclusive(&self) { lock_api::RawRwLock::lock_exclusive(&self.0) }\n\tfn try_lock_exclusive(&self) -> bool { lock_api::RawRwLock::try_lock_exclusive(&self.0) }\n\tunsafe fn unlock_exclusive(&self) { lock_api::RawRwLock::unlock_exclusive(&self.0) }\n}\ntype MRef = happylock::mutex::MutexRef<'static, i32, SendRaw>;\ntype RRef = happylock::rwlock::RwLockReadRef<'static, i32, SendRawRw>;\ntype WRef = happylock::rwlock::RwLockWriteRef<'static, i32, SendRawRw>;\n";
+	for (recv, bad_ty, good_ty) in [
+		("MutexGuard", "happylock::mutex::MutexGuard<'static, i32, SendRaw>", "MRef"),
+		("RwLockReadGuard", "happylock::rwlock::RwLockReadGuard<'static, i32, SendRawRw>", "RRef"),
+		("RwLockWriteGuard", "happylock::rwlock::RwLockWriteGuard<'static, i32, SendRawRw>", "WRef"),
+		("LockGuard<MutexRef>", "LockGuard<MRef>", "MRef"),
+		("LockGuard<(MutexRef, RwLockWriteRef)>", "LockGuard<(MRef, WRef)>", "(MRef, WRef)"),
+		("LockGuard<Box<[RwLockReadRef]>>", "LockGuard<Box<[RRef]>>", "Box<[RRef]>"),
+		("LockGuard<[MutexRef; 2]>", "LockGuard<[MRef; 2]>", "[MRef; 2]"),
+		("PoisonGuard<MutexRef>", "PoisonGuard<'static, MRef>", "PoisonRef<'static, MRef>"),
+		("LockGuard<PoisonResult<PoisonRef<MutexRef>>>", "LockGuard<PoisonResult<PoisonRef<'static, MRef>>>", "PoisonResult<PoisonRef<'static, MRef>>"),
+	] {
+		let mut en = e("C14", "send-guard-over-GuardSend-raw-lock", recv, "", &format!("\tneed_send_t::<{}>();", bad_ty), &format!("\tneed_send_t::<{}>();", good_ty), "", &["E0277"]);
+		en.items = send_raw.to_string();
+		v.push(en);
+	}
+	{
+		let mut en = e("C14", "send-guard-over-GuardSend-raw-lock", "collection guard moved to another thread", "\tlet c = LockCollection::new(happylock::mutex::Mutex::<i32, SendRaw>::new(1));\n\tlet g = c.lock(ThreadKey::get().unwrap());\n", "\tstd::thread::scope(|s| { s.spawn(move || drop(g)); });", "\tstd::thread::scope(|s| { s.spawn(move || ()); }); drop(g);", "", &["E0277"]);
+		en.items = send_raw.to_string();
+		v.push(en);
+	}
 	for (i, en) in v.iter_mut().enumerate() {
 		en.id = format!("{}-{:03}", en.prop, i);
 	}
@@ -398,11 +421,15 @@ pub struct RunOut {
 
 fn rustc(path: &str, rlib: &str, deps: &str) -> RunOut {
 	let mut pl = None;
+	let mut la = None;
 	if let Ok(rd) = std::fs::read_dir(deps) {
 		for f in rd.flatten() {
 			let n = f.file_name().to_string_lossy().to_string();
 			if n.starts_with("libparking_lot-") && n.ends_with(".rlib") {
 				pl = Some(f.path().to_string_lossy().to_string());
+			}
+			if n.starts_with("liblock_api-") && n.ends_with(".rlib") {
+				la = Some(f.path().to_string_lossy().to_string());
 			}
 		}
 	}
@@ -410,6 +437,9 @@ fn rustc(path: &str, rlib: &str, deps: &str) -> RunOut {
 	cmd.args(["--edition", "2021", "--crate-type", "lib", "--emit=metadata", "--error-format=json", "-A", "warnings", "-L"]).arg(format!("dependency={}", deps)).arg("--extern").arg(format!("happylock={}", rlib));
 	if let Some(p) = pl {
 		cmd.arg("--extern").arg(format!("parking_lot={}", p));
+	}
+	if let Some(p) = la {
+		cmd.arg("--extern").arg(format!("lock_api={}", p));
 	}
 	let out_meta = format!("{}.rmeta", path);
 	cmd.arg("-o").arg(&out_meta).arg(path);
